@@ -44,7 +44,7 @@ fn adversarial_leaves() -> Vec<String> {
     .map(|s| s.to_string())
     .collect();
     // a long multi-byte string and deep nesting
-    let long: String = "c3a9f09f9880".repeat(2000);
+    let long: String = "c3a9f09f9880".repeat(60); // 120 characters: nested loops over it stay cheap
     v.push(format!("s:{long}"));
     let mut deep = "i64:1".to_string();
     for i in 0..64 {
@@ -59,30 +59,52 @@ fn rich_with_leaf(l: &str) -> String {
     format!("M2 s:62 M2 s:62 {l} s:63 M1 s:62 {l} s:63 A2 {l} M1 s:62 M2 s:62 {l} s:63 M1 s:62 {l}")
 }
 
+/// A context is three *specs* (kept short: the long leaves are not copied into every item):
+/// `-` unbound, `L<i>` lattice value i, `A<k>` adversarial leaf k, `R<k>` the rich shape with
+/// leaf k; anything else is a literal wire value.
 fn adversarial_ctx(rng: &mut Rng, leaves: &[String]) -> [String; 3] {
     let mut out: [String; 3] = Default::default();
     for x in out.iter_mut() {
         *x = match rng.below(20) {
-            0..=5 => LATTICE[RICH].to_string(),
-            6..=12 => rich_with_leaf(&leaves[rng.below(leaves.len())]),
-            13..=16 => leaves[rng.below(leaves.len())].clone(),
-            17 => LATTICE[rng.below(LATTICE.len())].to_string(),
+            0..=4 => format!("L{RICH}"),
+            5 => format!("L{RICH_SAFE}"),
+            6..=12 => format!("R{}", rng.below(leaves.len())),
+            13..=16 => format!("A{}", rng.below(leaves.len())),
+            17 => format!("L{}", rng.below(LATTICE.len())),
             _ => "-".to_string(),
         };
     }
     out
 }
 
+fn wire_of_spec(spec: &str, leaves: &[String]) -> String {
+    let idx = |s: &str| s[1..].parse::<usize>().ok();
+    match spec.as_bytes().first() {
+        Some(b'L') if idx(spec).is_some_and(|i| i < LATTICE.len()) => LATTICE[idx(spec).unwrap()].to_string(),
+        Some(b'A') if spec.len() > 1 && idx(spec).is_some_and(|i| i < leaves.len()) => leaves[idx(spec).unwrap()].clone(),
+        Some(b'R') if idx(spec).is_some_and(|i| i < leaves.len()) => rich_with_leaf(&leaves[idx(spec).unwrap()]),
+        _ => spec.to_string(),
+    }
+}
+
 fn ctx_of_wires(w: &[String]) -> Context {
+    thread_local! {
+        static LEAVES: Vec<String> = adversarial_leaves();
+    }
     let mut ctx = Context::new();
     for (i, name) in ROOTS.iter().enumerate() {
-        if w[i] != "-" {
-            if let Some(v) = decode(&w[i]) {
+        let wire = LEAVES.with(|l| wire_of_spec(&w[i], l));
+        if wire != "-" {
+            if let Some(v) = decode(&wire) {
                 ctx.insert_value(*name, v);
             }
         }
     }
     ctx
+}
+
+fn expand_specs(w: &[String], leaves: &[String]) -> Vec<String> {
+    w.iter().map(|s| { let x = wire_of_spec(s, leaves); if x.len() > 400 { format!("{}… ({} characters, spec {s})", &x[..400], x.len()) } else { x } }).collect()
 }
 
 // ------------------------------------------------------------------------------ engine
@@ -500,7 +522,7 @@ fn main() {
     let leaves = adversarial_leaves();
 
     // ---- generate and register
-    let mut cases = generate_cases(&mut rng, env.budget(4, 40), env.budget(9000, 150_000));
+    let mut cases = generate_cases(&mut rng, env.budget(8, 40), env.budget(16_000, 80_000));
     let mut all_templates: Vec<(String, String)> = cases.iter().flat_map(|c| c.templates()).collect();
     hooks::optimize_record_start();
     let mut built = build(&all_templates);
@@ -606,11 +628,11 @@ fn main() {
     }
 
     // ---- 3. adversarial renders in child processes
-    let n_ctx = env.budget(5, 12);
+    let n_ctx = env.budget(6, 12);
     let per_batch = 250usize;
     let mut case_ctxs: Vec<Vec<[String; 3]>> = Vec::new();
     for _ in &cases {
-        let mut v = vec![[LATTICE[RICH].to_string(), LATTICE[RICH].to_string(), LATTICE[RICH].to_string()], ["-".to_string(), "-".to_string(), "-".to_string()]];
+        let mut v = vec![[format!("L{RICH}"), format!("L{RICH}"), format!("L{RICH}")], ["-".to_string(), "-".to_string(), "-".to_string()], [format!("L{RICH_SAFE}"), format!("L{RICH_SAFE}"), format!("L{RICH_SAFE}")]];
         for _ in 0..n_ctx {
             v.push(adversarial_ctx(&mut rng, &leaves));
         }
@@ -708,18 +730,31 @@ fn main() {
         report.violation(
             "property",
             format!("rendering `{}`: {}", best.templates().last().map(|t| t.1.clone()).unwrap_or_default(), j["problem"].as_str().unwrap_or("")),
-            serde_json::json!({"templates": best.templates(), "render": best.name(), "mode": j["mode"], "context": j["ctx"], "detail": j,
+            serde_json::json!({"templates": best.templates(), "render": best.name(), "mode": j["mode"], "context": j["ctx"],
+                "context_expanded": j["ctx"].as_array().map(|a| expand_specs(&a.iter().map(|x| x.as_str().unwrap_or("-").to_string()).collect::<Vec<_>>(), &leaves)), "detail": j,
                 "rerun": "harness/target/release/c07 --replay <this file>"}),
         );
     }
-    for (cid, reason) in culprits.iter().take(3) {
+    for (cid, _first_reason) in culprits.iter().take(8) {
         let case = case_by_id[cid];
         let idx = cases.iter().position(|c| c.id == *cid).unwrap_or(0);
+        // on its own and with a generous limit: a busy machine must not look like a hang
+        let b = Batch {
+            common: serde_json::json!({"templates": case.templates(), "limit_secs": 30}),
+            items: vec![serde_json::json!({"name": case.name(), "modes": case_modes(case).iter().map(mode_json).collect::<Vec<_>>(), "ctxs": case_ctxs[idx].iter().map(|w| w.to_vec()).collect::<Vec<_>>()})],
+        };
+        let again = run_batch(CHILD_FLAG, 650_000 + cid, &b, std::time::Duration::from_secs(90), 0);
+        if again.culprits.is_empty() {
+            report.count("render.slow_item_finished_when_run_alone");
+            report.oracle_failures -= 1;
+            continue;
+        }
+        let reason = &again.culprits[0].1;
         report.violation(
             "property",
-            format!("rendering `{}` does not return an answer: {reason} (limit 4 s / 3 GiB per case)", case.templates().last().map(|t| t.1.clone()).unwrap_or_default()),
+            format!("rendering `{}` does not return an answer: {reason} (limit 30 s / 3 GiB for the case on its own)", case.templates().last().map(|t| t.1.clone()).unwrap_or_default()),
             serde_json::json!({"templates": case.templates(), "render": case.name(), "mode": "render", "context": case_ctxs[idx][0].to_vec(),
-                "contexts_tried": case_ctxs[idx].iter().map(|w| w.to_vec()).collect::<Vec<_>>(), "detail": {"reason": reason},
+                "contexts_tried": case_ctxs[idx].iter().map(|w| expand_specs(w, &leaves)).collect::<Vec<_>>(), "detail": {"reason": reason},
                 "rerun": "harness/target/release/c07 --replay <this file>"}),
         );
     }
@@ -748,7 +783,7 @@ fn main() {
 
     // ---- 4. reference completeness, dynamically
     let matrix = reference_matrix();
-    let rich = [LATTICE[RICH].to_string(), LATTICE[RICH].to_string(), LATTICE[RICH].to_string()];
+    let rich = [format!("L{RICH}"), format!("L{RICH}"), format!("L{RICH}")];
     for rc in &matrix {
         report.evaluations += 1;
         report.count(&format!("refs.kind.{}", rc.kind));
@@ -874,7 +909,7 @@ fn main() {
     report.exhaustive = false;
     report.rule = format!(
         "evaluations = renders (every case in every mode: whole / block / component, under {} contexts: the rich one, the empty one and adversarial ones) + reference-matrix entries + known/depth sets. Non-trivial: a generated case at least one render of which ran to the end of the template (so every instruction on that path executed and the final stacks were inspected); distinct by case. Every chunk of every case (stored and pre-pass) goes through the verified checker.",
-        n_ctx + 2
+        n_ctx + 3
     );
     tera_verif_harness::childrun::cleanup();
     report.write(&out_path());
